@@ -65,9 +65,46 @@ func ruleC05Reject(e *Env) {
 		return
 	}
 	site := flow.FnName(dp)
-	calls := e.C.Calls(dp, func(f *ssa.Function) bool { return flow.Origin(f) == pd })
+	isPD := func(f *ssa.Function) bool { return flow.Origin(f) == pd }
+	calls := e.C.Calls(dp, isPD)
+	// the digit loop may live in a helper the parser calls (one level): the helper reports a refused digit through a
+	// false boolean result, which the parser in turn must test
+	var helper *ssa.Function
+	var via *ssa.Call
+	if len(calls) == 0 {
+		for _, c := range e.C.Calls(dp, flow.InRepo) {
+			h := flow.Origin(e.C.StaticCallee(&c.Call))
+			if hc := e.C.Calls(h, isPD); len(hc) > 0 && helper == nil {
+				helper, via, calls = h, c, hc
+			}
+		}
+	}
 	if len(calls) == 0 {
 		e.S.Unk(rule, site, "invalid digit", "the parser does not call the digit function", e.Pos(dp))
+	}
+	// falseEdge: the successor taken when the boolean v is false, for a branch on v or on !v
+	falseEdges := func(v ssa.Value) []*ssa.BasicBlock {
+		var out []*ssa.BasicBlock
+		var walk func(x ssa.Value, neg bool)
+		walk = func(x ssa.Value, neg bool) {
+			if x.Referrers() == nil {
+				return
+			}
+			for _, rr := range *x.Referrers() {
+				switch y := rr.(type) {
+				case *ssa.If:
+					if y.Cond == x {
+						out = append(out, y.Block().Succs[map[bool]int{false: 1, true: 0}[neg]])
+					}
+				case *ssa.UnOp:
+					if y.Op == token.NOT {
+						walk(y, !neg)
+					}
+				}
+			}
+		}
+		walk(v, false)
+		return out
 	}
 	perm := e.ParamPerm("uu", "parseDigit", pd)
 	for _, call := range calls {
@@ -78,16 +115,44 @@ func ruleC05Reject(e *Env) {
 			if !ok || !types.Identical(ex.Type(), types.Typ[types.Bool]) {
 				continue
 			}
-			for _, rr := range *ex.Referrers() {
-				iff, ok := rr.(*ssa.If)
-				if !ok || iff.Cond != ssa.Value(ex) {
-					continue
-				}
+			for _, fe := range falseEdges(ex) {
 				decided = true
-				if flow.LeadsOnlyToErrors(iff.Block().Succs[1]) {
+				rejects := false
+				if helper == nil {
+					rejects = flow.LeadsOnlyToErrors(fe)
+				} else {
+					// in the helper: only returns with one and the same boolean result false …
+					for j := 0; j < helper.Signature.Results().Len() && !rejects; j++ {
+						if !types.Identical(helper.Signature.Results().At(j).Type(), types.Typ[types.Bool]) {
+							continue
+						}
+						j := j
+						if !flow.LeadsOnlyToReturns(fe, func(ret *ssa.Return) bool {
+							vals := flow.ReturnValues(ret)
+							if j >= len(vals) {
+								return false
+							}
+							c, isC := vals[j].(*ssa.Const)
+							return isC && c.Value != nil && c.Value.Kind() == constant.Bool && !constant.BoolVal(c.Value)
+						}) {
+							continue
+						}
+						// … which the parser tests, its false edge leading only to error returns
+						for _, vr := range *via.Referrers() {
+							if vex, ok := vr.(*ssa.Extract); ok && vex.Index == j {
+								for _, vfe := range falseEdges(vex) {
+									if flow.LeadsOnlyToErrors(vfe) {
+										rejects = true
+									}
+								}
+							}
+						}
+					}
+				}
+				if rejects {
 					e.S.Ok(rule, site, "invalid digit", "a byte the digit function refuses leads only to error returns", e.posOf(call))
 				} else {
-					e.S.Bad(rule, site, "invalid digit", "a byte the digit function refuses does not always end in an error: a non-hexadecimal digit can be accepted", e.posOf(iff), "00000000-0000-0000-zzzz-zzzzzzzzzzzz")
+					e.S.Bad(rule, site, "invalid digit", "a byte the digit function refuses does not always end in an error: a non-hexadecimal digit can be accepted", e.posOf(call), "00000000-0000-0000-zzzz-zzzzzzzzzzzz")
 				}
 			}
 		}
@@ -102,7 +167,15 @@ func ruleC05Reject(e *Env) {
 		bit, okBit := tabConstInt(e, "uu", "RuleDisableUpperCaseDigits")
 		gate := false
 		if bi < len(call.Call.Args) && okBit {
-			if bo, ok := call.Call.Args[bi].(*ssa.BinOp); ok && bo.Op == token.EQL {
+			perm := call.Call.Args[bi]
+			if hp, isParam := perm.(*ssa.Parameter); isParam && helper != nil { // handed down by the parser
+				for pi, p := range helper.Params {
+					if p == hp && pi < len(via.Call.Args) {
+						perm = via.Call.Args[pi]
+					}
+				}
+			}
+			if bo, ok := perm.(*ssa.BinOp); ok && bo.Op == token.EQL {
 				if k, isC := flow.ConstInt(bo.Y); isC && k == 0 {
 					if and, ok := bo.X.(*ssa.BinOp); ok && and.Op == token.AND {
 						m, isM := flow.ConstInt(and.Y)
@@ -472,6 +545,10 @@ func ruleC05Strict(e *Env, hyph []int) {
 		switch {
 		case as == "*uu.MaxInputLength" && bs == "0":
 			return 0, true, true
+		case as == "len(input)" && bs == "*uu.MaxInputLength":
+			return 1, true, true // a non-empty text against the disabled limit (0): longer, and not rejected
+		case as == "*uu.MaxInputLength" && bs == "len(input)":
+			return -1, true, true
 		case bs == "len(*uu."+e.vname("uu", "starts")+")" || as == "len(*uu."+e.vname("uu", "starts")+")":
 			return 0, true, true // skip the digit loop: its body is C05.nib's business
 		}
@@ -796,6 +873,10 @@ func ruleC05Sem(e *Env, rule string) {
 			switch {
 			case as == "*uu.MaxInputLength" && bs == "0":
 				return 0, true, true
+			case as == "len(input)" && bs == "*uu.MaxInputLength":
+				return 1, true, true // a non-empty text against the disabled limit (0): longer, and not rejected
+			case as == "*uu.MaxInputLength" && bs == "len(input)":
+				return -1, true, true
 			case as == "len(input)" && isC && c.V != nil && c.V.Kind() == constant.Int:
 				k, _ := constant.Int64Val(c.V)
 				return sgn(lay.length - int(k)), true, true
